@@ -20,6 +20,9 @@ class Opts(object):
         self.allow_unclosed = True
         self.strings = True
         self.marker_under_ops = True
+        self.w_bitmap = 3
+        self.w_204 = 1
+        self.w_rep = 2
         self.plain_bitmap_list = True   # 031031 written N times without a replication
         self.__dict__.update(kw)
 
@@ -122,9 +125,9 @@ def gen_item(ch, pool, ctx, opts, depth, pos):
     if opts.sequences and pool.seqs:
         choices.append((2, 'seq'))
     if depth < opts.max_depth and ctx.budget >= 3:
-        choices.append((2, 'fixed'))
+        choices.append((opts.w_rep, 'fixed'))
         if opts.delayed and not ctx.in_numop:
-            choices.append((2, 'delayed'))
+            choices.append((opts.w_rep, 'delayed'))
     if opts.operators and depth < opts.max_depth and ctx.budget >= 4:
         if not ctx.in_numop and not ctx.in_204:
             choices += [(1, '201'), (1, '202'), (1, '207')]
@@ -132,14 +135,14 @@ def gen_item(ch, pool, ctx, opts, depth, pos):
         if not ctx.in_208 and opts.strings and pool.strs:
             choices.append((1, '208'))
         if ctx.in_204 < 2 and not ctx.in_numop:
-            choices.append((1, '204'))
+            choices.append((opts.w_204, '204'))
         if not ctx.in_204:
             choices += [(1, '205'), (1, '206')]
         if not ctx.in_204 and not ctx.in_numop and pool.class1to9 and pool.non1to9:
             choices.append((1, '221'))
     if (opts.bitmaps and opts.operators and not ctx.in_204 and not ctx.in_numop and not ctx.in_rep
             and ctx.min_plain >= 1 and ctx.budget >= 6 and not ctx.in_208):
-        choices.append((3, 'bitmap'))
+        choices.append((opts.w_bitmap, 'bitmap'))
     k = ch.weighted(choices)
     return _GEN[k](ch, pool, ctx, opts, depth)
 
@@ -409,6 +412,11 @@ def g_bitmap(ch, pool, ctx, opts, depth):
             if attr is None:
                 return out
             blk += [101000, 31001, attr]
+            if ch.bool(1, 5):
+                # an ordinary class 33 element later on is plain data, not quality information
+                blk += [_pick_num(ch, pool, ctx, 1), ch.choice(pool.class33)]
+                ctx.min_plain += 2
+                ctx.features.add('class33_as_data_after_qa')
         else:
             if op == 224:
                 blk.append(8023)
